@@ -38,7 +38,7 @@ theorem depsSeq_flag (rs : List Ref) : ∀ (s : State) (f : Bool),
       rw [a]
       cases f <;> simp
 
-theorem procSeq_flag (e : Env) (he : e.fos = false) (s : State) (f : Bool) (o : Obj) :
+theorem procSeq_flag (e : Env) (s : State) (f : Bool) (o : Obj) :
     procSeq e { s with flag := f } o =
       { procSeq e { s with flag := false } o with flag := f || (procSeq e { s with flag := false } o).flag } := by
   simp only [procSeq, has_flag, needOf_flag]
@@ -46,8 +46,10 @@ theorem procSeq_flag (e : Env) (he : e.fos = false) (s : State) (f : Bool) (o : 
   · simp [h1]
   · have h1' : s.has o.key = false := by simpa using h1
     by_cases h2 : (e.k.sel s.has o || s.needOf o.key) = true
-    · simp only [h1', h2, if_true, Bool.false_eq_true, if_false, storeSeq, he, Bool.or_false]
-      exact depsSeq_flag o.refs { s with kept := o.key :: s.kept } f
+    · simp only [h1', h2, if_true, Bool.false_eq_true, if_false, storeSeq]
+      rw [depsSeq_flag o.refs { s with kept := o.key :: s.kept } (f || e.fos),
+        depsSeq_flag o.refs { s with kept := o.key :: s.kept } (false || e.fos)]
+      simp [Bool.or_assoc]
     · simp [h1', h2]
 
 /-- `SEq` of the abstraction with an arbitrary flag, from `SEq` with the flag forced to `false` -/
@@ -108,11 +110,11 @@ theorem step_node (K : KeepFunc) (k : Keep) (hK : KeepShape K k) (d : Data) (hkm
     · rw [hkm.nodes a ha]; exact ha
     · exact hsub.nodes e he
 
-theorem seq_step {d' : Data} {ap nap : Bool} {s : State} {e : Env} (he : e.fos = false) {o : Obj}
+theorem seq_step {d' : Data} {ap nap : Bool} {s : State} {e : Env} {o : Obj}
     (hf : nap = s.flag) (h : SEq (absState d' ap) (procSeq e { s with flag := false } o)) :
     SEq (absState d' (nap || ap)) (procSeq e s o) := by
   have := seq_reflag nap h
-  have e2 := procSeq_flag e he s s.flag o
+  have e2 := procSeq_flag e s s.flag o
   rw [hf] at this ⊢
   rw [show ({ s with flag := s.flag } : State) = s from rfl] at e2
   rw [e2]; exact this
@@ -123,7 +125,7 @@ theorem step_way (K : KeepFunc) (k : Keep) (hK : KeepShape K k) (d : Data) (hkm 
     ∃ d' ap, processWayNoCopy out a.2 K false = .ok (d', ap) ∧
       SEq (absState d' (nap || ap)) (procSeq (envF k) s (objWay a.2)) ∧ Sub d' d := by
   obtain ⟨d', ap, h1, h2, hn, hr, hw⟩ := tie_processWayNoCopy K k hK 1 out a.2 false _ (seq_unflag hs)
-  refine ⟨d', ap, h1, seq_step rfl hs.flag h2, ?_⟩
+  refine ⟨d', ap, h1, seq_step hs.flag h2, ?_⟩
   refine ⟨by rw [hn]; exact hsub.nodes, fun e he => ?_, by rw [hr]; exact hsub.rels⟩
   rcases hw with hw | hw <;> rw [hw] at he
   · exact hsub.ways e he
@@ -139,7 +141,7 @@ theorem step_rel (K : KeepFunc) (k : Keep) (hK : KeepShape K k) (d : Data) (hkm 
       SEq (absState d' (nap || ap)) (procSeq (envF k) s (objRel a.2)) ∧ Sub d' d := by
   obtain ⟨d', ap, h1, h2, hn, hw, hr⟩ :=
     tie_processRelationNoCopy K k hK 1 out a.2 (hm a ha) false _ (seq_unflag hs)
-  refine ⟨d', ap, h1, seq_step rfl hs.flag h2, ?_⟩
+  refine ⟨d', ap, h1, seq_step hs.flag h2, ?_⟩
   refine ⟨by rw [hn]; exact hsub.nodes, by rw [hw]; exact hsub.ways, fun e he => ?_⟩
   rcases hr with hr | hr <;> rw [hr] at he
   · exact hsub.rels e he
